@@ -1,12 +1,16 @@
 import STProofs.CubicAdjoint
 import STProofs.QuinticAdjoint
 import STProofs.SepticAdjoint
+import STProofs.QuinticUnique
+import STProofs.SepticUnique
 /-!
 # C05 — gradient propagation is the exact adjoint (property theorems: cubic, quintic and septic, every N)
 
-Cubic: unconditional for positive durations.  Quintic / septic: under `DetOK`, the statement that no pivot
-determinant of the block elimination of the *real* system vanishes (a condition on the durations only; the
-code divides by exactly these determinants).  Everything else — the dual system being solvable, the
+All three orders are unconditional for positive durations (`C05_cubic`, `C05_quintic_pos`, `C05_septic_pos`).
+The quintic / septic theorems are first proved under `DetOK` — no pivot determinant of the block elimination of the
+*real* system vanishes (the code divides by exactly these determinants) — which also covers non-positive durations
+with non-singular pivots; `QuinticPiv.detOK_of_pos` / `SepticPiv.detOK_of_pos` discharge it for positive durations.
+Everything else — the dual system being solvable, the
 transposed sweeps being the adjoint of the solve, both loops, the boundary corrections with the cached
 `L_0` / `U_last` blocks — is proved.
 -/
@@ -76,3 +80,27 @@ example : SepticAdj.DetOK none
   simp only [SepticAdj.DetOK, Septic.rows, Septic.rowsAux, Septic.mkSegs, Septic.mkTP, Septic.blockD,
     Septic.blockL, Septic.blockU, M3.det, M3.inv, M3.mul_def, M3.sub_def, lit_eq]
   norm_num
+
+/-- quintic, unconditional for positive durations -/
+theorem C05_quintic_pos {K : Type} [Field K] [LinearOrder K] [IsStrictOrderedRing K]
+    (hs Ps : List (Dual K)) (bL bR : V2 (Dual K)) (gs : List (Quintic.C6 K)) (gT : List K)
+    (hne0 : hs ≠ []) (hpos : ∀ h ∈ hs, 0 < h.re)
+    (hP : Ps.length = hs.length + 1) (hg : gs.length = hs.length) (hgT : gT.length = hs.length) :
+    let b := Quintic.buildFull (hs.map Dual.re) (Ps.map Dual.re) (QuinticAdj.V2re bL) (QuinticAdj.V2re bR)
+    let out := Quintic.propagate b gs
+    QuinticAdj.gdotC6 gs (Quintic.build hs Ps bL bR) + dot gT (hs.map Dual.du)
+      = dot out.points (Ps.map Dual.du) + dot (zipAdd gT out.times) (hs.map Dual.du)
+        + QuinticAdj.ip2 out.start (QuinticAdj.V2du bL) + QuinticAdj.ip2 out.fin (QuinticAdj.V2du bR) :=
+  QuinticPiv.quintic_adjoint_pos hs Ps bL bR gs gT hne0 hpos hP hg hgT
+
+/-- septic, unconditional for positive durations -/
+theorem C05_septic_pos {K : Type} [Field K] [LinearOrder K] [IsStrictOrderedRing K]
+    (hs Ps : List (Dual K)) (bL bR : V3 (Dual K)) (gs : List (Septic.C8 K)) (gT : List K)
+    (hne0 : hs ≠ []) (hpos : ∀ h ∈ hs, 0 < h.re)
+    (hP : Ps.length = hs.length + 1) (hg : gs.length = hs.length) (hgT : gT.length = hs.length) :
+    let b := Septic.buildFull (hs.map Dual.re) (Ps.map Dual.re) (SepticAdj.V3re bL) (SepticAdj.V3re bR)
+    let out := Septic.propagate b gs
+    SepticAdj.gdotC8 gs (Septic.build hs Ps bL bR) + dot gT (hs.map Dual.du)
+      = dot out.points (Ps.map Dual.du) + dot (zipAdd gT out.times) (hs.map Dual.du)
+        + SepticAdj.ip3 out.start (SepticAdj.V3du bL) + SepticAdj.ip3 out.fin (SepticAdj.V3du bR) :=
+  SepticPiv.septic_adjoint_pos hs Ps bL bR gs gT hne0 hpos hP hg hgT
